@@ -85,13 +85,10 @@ pub trait ReadFix: Read {
 impl<R: Read> ReadFix for R {}
 
 impl Any {
-    // (a) TOTAL: no panic / overflow on any input; TERMINATION: `decreases old(decoder).rest().len()` -- every recursive call
-    //     happens after the tag byte has been consumed, so the recursion depth is at most the input length (the STACK
-    //     depth itself is not bounded by any contract: a 1 MB input of nested arrays `75 01 75 01 ..` recurses ~500 000 deep);
-    //     PROGRESS: an array element takes >= 1 byte, a map entry >= 2 bytes (invariants `decoder.rest().len() + c * n <= s2.len()`)
-    // (b) ALLOCATION BUDGET: `HashMap::with_capacity(len)` / `Vec::with_capacity(len)`, len: usize straight from a var-int
-    //                                                                                          -- FINDING F-DC-7 (see unit.rs)
-    /*@extract yrs/src/any.rs | impl Any | fn decode | label=any_decode | rules=SUB(from=HashMap::with_capacity;;to=vx_budget(decoder).map_with_capacity::<String, Any>) SUB(from=Vec::with_capacity;;to=vx_budget(decoder).vec_with_capacity::<Any>) SUB(from=Arc::from(str);;to=vx_arc_str(str)) SUB(from=Arc::new(map);;to=AnyMap(map)) SUB(from=Arc::from(arr);;to=AnyArr(arr)) SUB(from=Arc::from(decoder.read_buf()?);;to=vx_arc_bytes(decoder.read_buf()?))
+    /*@extract yrs/src/any.rs | impl Any | const MAX_DECODE_DEPTH @*/
+
+    // the public entry point: TOTAL + PROGRESS
+    /*@extract yrs/src/any.rs | impl Any | fn decode | label=any_decode
     @ret res
     @sig
         requires
@@ -100,7 +97,25 @@ impl Any {
             final(decoder).wf(),
             suffix_of(old(decoder).rest(), final(decoder).rest()),
             res is Ok ==> final(decoder).rest().len() < old(decoder).rest().len(),
-        decreases old(decoder).rest().len(),
+    @*/
+
+    // (a) TOTAL for EVERY `depth` (no panic, `depth + 1` does not overflow) and every input;
+    //     BOUNDED RECURSION (F-DC-8, repaired): the termination measure is `MAX_DECODE_DEPTH + 1 - depth`, i.e. the obligation
+    //     "every recursive call happens at a depth <= MAX_DECODE_DEPTH and one level deeper" -- at most MAX_DECODE_DEPTH + 2
+    //     frames whatever the input (removing the guard or recursing with `depth` fails `any_decode_nested::term`);
+    //     PROGRESS: an array element takes >= 1 byte, a map entry >= 2 bytes (invariants `decoder.rest().len() + c * n <= s2.len()`)
+    // (b) ALLOCATION BUDGET: both capacity requests go through vx_budget (F-DC-7, repaired: capped at 1024)
+    /*@extract yrs/src/any.rs | impl Any | fn decode_nested | label=any_decode_nested | rules=SUB(from=HashMap::with_capacity;;to=vx_budget(decoder).map_with_capacity::<String, Any>) SUB(from=Vec::with_capacity;;to=vx_budget(decoder).vec_with_capacity::<Any>) SUB(from=Arc::from(str);;to=vx_arc_str(str)) SUB(from=Arc::new(map);;to=AnyMap(map)) SUB(from=Arc::from(arr);;to=AnyArr(arr)) SUB(from=Arc::from(decoder.read_buf()?);;to=vx_arc_bytes(decoder.read_buf()?))
+    @ret res
+    @sig
+        requires
+            old(decoder).wf(),
+        ensures
+            final(decoder).wf(),
+            suffix_of(old(decoder).rest(), final(decoder).rest()),
+            res is Ok ==> final(decoder).rest().len() < old(decoder).rest().len(),
+            res is Ok ==> depth <= Self::MAX_DECODE_DEPTH,
+        decreases Self::MAX_DECODE_DEPTH + 1 - depth,
     @start
         let ghost s0 = decoder.rest();
         proof {
@@ -112,11 +127,12 @@ impl Any {
         }
     @after 1 `stmt:let len`
         let ghost s2 = decoder.rest();
-        proof { lemma_suffix_step(s0, s0.skip(1), s2); }
+        proof { lemma_suffix_step(s0, s0.skip(1), s2); lemma_suffix_refl(s2); }
     @loop 1 iter=it
         invariant
             s0 == old(decoder).rest(),
             decoder.wf(),
+            depth <= Self::MAX_DECODE_DEPTH,
             suffix_of(s0, s2),
             suffix_of(s2, decoder.rest()),
             s2.len() < s0.len(),
@@ -139,15 +155,16 @@ impl Any {
         }
     @after 1 `stmt:call insert`
         proof { lemma_suffix_step(s2, sa.skip(dec_buf(sa)->Some_0.1 as int), decoder.rest()); }
-    @before 1 `stmt:call Any::Map`
+    @after 1 `stmt:for`
         proof { lemma_suffix_step(s0, s2, decoder.rest()); }
     @after 2 `stmt:let len`
         let ghost s2 = decoder.rest();
-        proof { lemma_suffix_step(s0, s0.skip(1), s2); }
+        proof { lemma_suffix_step(s0, s0.skip(1), s2); lemma_suffix_refl(s2); }
     @loop 2 iter=it
         invariant
             s0 == old(decoder).rest(),
             decoder.wf(),
+            depth <= Self::MAX_DECODE_DEPTH,
             suffix_of(s0, s2),
             suffix_of(s2, decoder.rest()),
             s2.len() < s0.len(),
@@ -161,7 +178,7 @@ impl Any {
         }
     @after 1 `stmt:call push`
         proof { lemma_suffix_step(s2, sa, decoder.rest()); }
-    @before 1 `stmt:call Any::Array`
+    @after 2 `stmt:for`
         proof { lemma_suffix_step(s0, s2, decoder.rest()); }
     @*/
 }
